@@ -164,7 +164,7 @@ Init ==
   /\ subs = <<>>
   /\ flag = [f \in Flags |-> FALSE]
   /\ lock = [l \in AllLocks |-> [owner |-> 0, depth |-> 0]]
-  /\ obj = [q |-> [i \in Queues |-> [buf |-> <<>>, closed |-> FALSE]],
+  /\ obj = [q |-> [i \in Queues |-> [buf |-> <<>>, closed |-> FALSE, got |-> 0]],     \* got: last item handed out (ghost)
             ch |-> [i \in Chans |-> [closed |-> FALSE, bufs |-> <<>>]],
             pool |-> [p \in 1..MaxPools |-> [level |-> IF p <= NRes THEN Vec(ResInit, ResInitB) ELSE Zero, parent |-> 0, debit |-> Zero,
                                               owner |-> 0, open |-> FALSE]],
@@ -778,7 +778,7 @@ QGetStep ==
                     /\ UNCHANGED <<lock, pending, obj, fault>>
           ELSE IF obj.q[q].buf # <<>>
           THEN \* popleft, leave the mutex, return the item
-               /\ obj' = SetQ(q, "buf", Tail(obj.q[q].buf))
+               /\ obj' = [obj EXCEPT !.q[q].buf = Tail(@), !.q[q].got = Head(obj.q[q].buf)]
                /\ act' = Drop(act, A)
                /\ ExitLock(m)
                /\ SetRun("ret", <<"val", Head(obj.q[q].buf)>>)
